@@ -90,7 +90,7 @@ pub fn record(pool_paths: &str, w: &mut dyn Write, seed: u64, n_events: usize) {
     let multi: Vec<usize> = (0..items.len()).filter(|i| !items[*i].stress && items[*i].mp.0.iter().any(|p| p.interiors().len() >= 2)).collect();
     let stress: Vec<usize> = (0..items.len()).filter(|i| items[*i].stress).collect();
     let mut rng = StdRng::seed_from_u64(seed ^ 0xC10);
-    let maps: Vec<ExactMap> = exact_maps().into_iter().filter(|m| !m.name.starts_with("scale_2m") && m.name != "shear_huge").collect();
+    let maps: Vec<ExactMap> = exact_maps().into_iter().filter(|m| !m.name.starts_with("scale_2m") && m.name != "scale_2p100" && m.name != "shear_huge").collect();
     let mut emitted = 0usize;
     let mut k = 0usize;
     while emitted < n_events {
